@@ -70,6 +70,7 @@ func (a *basicDownloadAdapter) DoTransfer(ctx interface{}, t *Transfer, cb Progr
 	if err != nil {
 		return err
 	}
+	tools.VerifFs("write", "", f.Name())
 
 	// Read any existing data into hash
 	hash := tools.NewLfsContentHash()
